@@ -44,9 +44,25 @@ class Helper:
                 self.defaults[k.arg] = d
         self.ok_sig = not a.vararg and not a.kwarg and not a.posonlyargs
         self.body = _strip_doc(node.body)
+        # a generator that only re-yields other iterables (`yield from A ; yield from B`) is chain(A, B): an expression helper
+        if self.body and all(isinstance(st, ast.Expr) and isinstance(st.value, ast.YieldFrom) and _view_expr(st.value.value) for st in self.body):
+            ret = ast.Return(value=ast.Call(func=ast.Name(id="chain", ctx=ast.Load()), args=[st.value.value for st in self.body], keywords=[]))
+            ast.copy_location(ret, self.body[0])
+            ast.fix_missing_locations(ret)
+            node.body = node.body[: len(node.body) - len(self.body)] + [ret]
+            self.body = [ret]
         self.is_gen = any(isinstance(n, (ast.Yield, ast.YieldFrom)) for n in ast.walk(node))
         self.has_nested = any(isinstance(n, (ast.FunctionDef, ast.AsyncFunctionDef, ast.ClassDef)) for n in ast.walk(node) if n is not node)
         self.assigned = _assigned_names(self.body)
+
+
+def _view_expr(e) -> bool:
+    """an attribute chain, possibly ending in .values() / .items() / .keys(): re-evaluating it later or earlier gives the same live view"""
+    if isinstance(e, ast.Call) and isinstance(e.func, ast.Attribute) and e.func.attr in ("values", "items", "keys") and not e.args and not e.keywords:
+        e = e.func.value
+    while isinstance(e, ast.Attribute):
+        e = e.value
+    return isinstance(e, ast.Name)
 
 
 def _assigned_names(stmts) -> set:
